@@ -4,7 +4,7 @@ from ..norm import n, P, C, V, match, find_all
 from . import cmpmodel, common, simd
 
 ID = "C08"
-CONFIGS = {"quick": ["K0", "K2", "K13", "K14b"], "thorough": ["K0", "K1", "K2", "K13", "K14a", "K14b", "K14c", "K17"]}
+CONFIGS = {"quick": ["K0", "K1", "K2", "K13", "K14b"], "thorough": ["K0", "K1", "K2", "K13", "K14a", "K14b", "K14c", "K17"]}
 META = {
     "explanation": (
         "Static analysis (MIR + constant evaluator).  For the Q-ratio and length parts the laws are decided on the "
@@ -34,6 +34,12 @@ def run(ctx, FS):
         qt = tables.qdist_tables(ctx, r, F)
         lt = tables.ldist_table(ctx, r, F)
         tables.maxima(ctx, r, F, qt, lt)
+        # the run-time entry points themselves (table-driven or not, whatever this configuration compiles), on their whole domains:
+        # equal to the reference distance, which is symmetric, zero exactly on the diagonal and bounded by MAX_DISTANCE
+        cmpmodel.full_domain(ctx, r, F, "compare::dist_qratios::distance", ("dist_qratios::distance", "laws"), cmpmodel.BYTES2, cmpmodel.qdist_ref,
+                             "the symmetric reference distance sub(lo1,lo2) + sub(hi1,hi2) (max 168)")
+        cmpmodel.full_domain(ctx, r, F, "compare::dist_length::distance", ("dist_length::distance", "laws"), cmpmodel.BYTES2, cmpmodel.ldist_ref,
+                             "the symmetric reference distance on the ring mod 256 (max 1536)")
         ctx.instance(r)
         ctx.rules[r]["exhaustive"] = True
         r = "R-08.2"
